@@ -2,6 +2,7 @@ package main
 
 import (
 	"fmt"
+	"go/token"
 	"regexp"
 	"strings"
 
@@ -214,6 +215,78 @@ func init() {
 		}
 	})
 
+	// ------------------------------------------------------------------ C08.R8
+	// Bootstrap (state sync) is the sibling of save: it stores full sets for the three heights a fresh
+	// state knows about, and each must be the set in force at that height: LastValidators at H-1,
+	// Validators at H, NextValidators at H+1 (H = the next block's height). Every later record points
+	// back to the H+1 record, so a wrong set there is served for all following heights.
+	register("C08", "R8", "K5", "bootstrap stores, as full records, exactly the set in force at each of the heights H-1, H, H+1", 5, func(c *Ctx) {
+		w := c.W
+		f := c.fn("state", "dbStore.Bootstrap")
+		if f == nil {
+			return
+		}
+		fk := funcKey(f)
+		H := `phi\(\(state\.LastBlockHeight \+ 1\)\|state\.InitialHeight\)`
+		table := []struct{ h, set string }{
+			{`\(` + H + ` - 1\)`, "state.LastValidators"},
+			{H, "state.Validators"},
+			{`\(` + H + ` \+ 1\)`, "state.NextValidators"},
+		}
+		k := newKeyer()
+		for _, dc := range w.deepCallsTo(f, 2, "state#dbStore.saveValidatorsInfo") {
+			h, ch, set := dc.arg(0), dc.arg(1), dc.arg(2)
+			ok := false
+			for _, t := range table {
+				if regexp.MustCompile("^"+t.h+"$").MatchString(h) && set == t.set {
+					ok = true
+				}
+			}
+			c.Check(ok, k.key(f, "record for a height holds the set in force there"), w.ipos(dc.site), "(H-1, LastValidators) (H, Validators) (H+1, NextValidators)", "bootstrap stores "+set+" as the validator set of height "+h)
+			c.Check(h == ch, k.key(f, "record is a full set (last-changed = its own height)"), w.ipos(dc.site), "lastHeightChanged = height", "bootstrap stores the record for "+h+" as changed at "+ch+": a pointer to a record that does not exist in a fresh store")
+		}
+		for _, t := range table[1:] {
+			g := guardRe(t.set+" stored", `^nil\(store\.saveValidatorsInfo\(`+t.h+`, `+t.h+`, `+q(t.set)+`\)\)$`)
+			c.Check(c.ge().ensures(f, g, 0), fk+" :: succeeds only after "+t.set+" was stored", w.pos(f.Pos()), "success behind the write", "Bootstrap can succeed without storing "+t.set)
+		}
+	})
+
+	// ------------------------------------------------------------------ C08.R9
+	// F22: Rollback rebuilds the state of height n-1 from the state of height n and saves it; save()
+	// writes the record for height n+1 (NextValidators) as a pointer to State.LastHeightValidatorsChanged
+	// unless that equals n+1. The last-changed height of the state being dropped can be n+1 (change in
+	// block n-1: still true after the rollback) or n+2 (change in block n: the earlier value is lost).
+	// The only value that is always right when it has to be lowered is n+1 itself: then the record for
+	// n+1 is a full one. Lowering it to n makes the record for n+1 point at a record that is not a full
+	// set (or at the set before the change).
+	register("C08", "R9", "K5", "rollback: the rebuilt state's last-changed height is lowered, if at all, to the height of its NextValidators (so that their record is stored in full)", 2, func(c *Ctx) {
+		w := c.W
+		f := c.fn("state", "Rollback")
+		if f == nil {
+			return
+		}
+		fk := funcKey(f)
+		n := 0
+		for _, fs := range w.fieldStoresIn(f, "state", "State", "LastHeightValidatorsChanged") {
+			var edges []ssa.Value
+			if phi, ok := fs.Store.Val.(*ssa.Phi); ok {
+				edges = phi.Edges
+			} else {
+				edges = []ssa.Value{fs.Store.Val}
+			}
+			for _, e := range edges {
+				es := w.expr(e)
+				if strings.HasSuffix(es, ".LastHeightValidatorsChanged") {
+					continue // carried over
+				}
+				n++
+				off, ok := offsetFrom(e, func(v ssa.Value) bool { return strings.HasSuffix(w.expr(v), ".LastBlockHeight") })
+				c.Check(ok && off == 1, fk+" :: lowered last-changed height is the height of NextValidators (dropped height + 1)", w.ipos(fs.Store), "LastBlockHeight(dropped state) + 1", fmt.Sprintf("lowered to %s (dropped height %+d): save() then stores the record for dropped height + 1 as a pointer to a height that need not hold a full set", es, off))
+			}
+		}
+		c.Check(n >= 1, fk+" :: last-changed height is adjusted", w.pos(f.Pos()), "one lowering site", "Rollback no longer adjusts LastHeightValidatorsChanged")
+	})
+
 	// ------------------------------------------------------------------ C08.R7
 	register("C08", "R7", "K3", "the set for height+1 is always the current set rotated by exactly one round wherever a state is built", 4, func(c *Ctx) {
 		w := c.W
@@ -271,4 +344,31 @@ func (c *Ctx) loopItemGuard(f *ssa.Function, key string, g Guard) {
 	if n == 0 {
 		c.Undecided(key+" <= "+g.Name, w.pos(f.Pos()), "no loop found in "+funcKey(f))
 	}
+}
+
+// offsetFrom evaluates v as base + k for a value satisfying isBase, following integer additions and
+// subtractions of constants.
+func offsetFrom(v ssa.Value, isBase func(ssa.Value) bool) (int64, bool) {
+	v = stripConv(v)
+	if isBase(v) {
+		return 0, true
+	}
+	b, ok := v.(*ssa.BinOp)
+	if !ok {
+		return 0, false
+	}
+	kx, xc := constInt(b.X)
+	ky, yc := constInt(b.Y)
+	switch {
+	case b.Op == token.ADD && yc:
+		o, ok := offsetFrom(b.X, isBase)
+		return o + ky, ok
+	case b.Op == token.ADD && xc:
+		o, ok := offsetFrom(b.Y, isBase)
+		return o + kx, ok
+	case b.Op == token.SUB && yc:
+		o, ok := offsetFrom(b.X, isBase)
+		return o - ky, ok
+	}
+	return 0, false
 }
